@@ -499,15 +499,16 @@ impl<const M: usize> World<M> {
         if let Err(p) = &r {
             self.v(6, "reset_panicked", "reset_panicked".into(), format!("reset panicked: {:?}", p));
         }
-        // C03: reset gives back everything except the newest block, nothing else
+        // C03: reset gives back every block it holds except exactly one (the property does not say which
+        // one is kept), each exactly once, and nothing else
         let freed: Vec<u32> = self.e().frees.iter().map(|f| f.serial).collect();
-        let newest = held.iter().map(|b| b.serial).max();
-        let mut expect: Vec<u32> = held.iter().map(|b| b.serial).filter(|s| Some(*s) != newest).collect();
+        let held_ids: Vec<u32> = held.iter().map(|b| b.serial).collect();
         let mut got = freed.clone();
-        expect.sort();
         got.sort();
-        if expect != got {
-            self.v(3, "reset_freed_wrong_set", format!("reset_freed_wrong_set/kept_newest={}", !freed.iter().any(|s| Some(*s) == newest)), format!("reset: held blocks {:?}, newest {:?}, freed {:?}", held.iter().map(|b| b.serial).collect::<Vec<_>>(), newest, freed));
+        got.dedup();
+        let ok = got.len() == freed.len() && got.iter().all(|s| held_ids.contains(s)) && freed.len() + 1 == held.len().max(1);
+        if !ok {
+            self.v(3, "reset_freed_wrong_set", format!("reset_freed_wrong_set/kept={}", held.len() as i64 - freed.len() as i64), format!("reset: held blocks {:?}, freed {:?} (expected: all but one)", held_ids, freed));
         }
         if !self.e().reqs.is_empty() {
             self.v(6, "reset_asked_allocator", "reset_asked_allocator".into(), "reset requested memory from the global allocator".into());
